@@ -146,6 +146,10 @@ def thread_body(run, tid, program):
         for i, st in enumerate(program):
             step_no = tid * 100 + i
             m = st["m"]
+            if m == "advance":
+                w.clock.advance(st["dt"])      # lets pool_idle_timeout elapse between operations
+                run.sched.point("ev:advance")
+                continue
             if run.client is not None:
                 args = [codec.dec(a) for a in st.get("a", ())]
                 kwargs = {k: codec.dec(v) for k, v in (st.get("k") or {}).items()}
@@ -373,6 +377,8 @@ class C08(Prop):
                         prog.append({"m": "quit", "a": []})
                     else:
                         prog.append({"m": "close", "a": []})
+                    if ck.get("pool_idle_timeout") and rng.random() < 0.4:
+                        prog.append({"m": "advance", "dt": rng.choice([0.5, 2, 40])})
                 progs.append(prog)
             th = {"mode": "pooled", "programs": progs, "lock": rng.choice(["generator", "threading"])}
         else:
@@ -522,7 +528,8 @@ class C08(Prop):
     def probe_names(self):
         return ("preempted-inside-critical-region", "thread-blocked-on-pool-lock", "pool-exhausted-legitimately",
                 "client-destroyed-while-other-thread-active", "clear-while-connection-checked-out",
-                "single-preemption-sweep-complete", "default-threading-lock-path", "three-threads")
+                "single-preemption-sweep-complete", "default-threading-lock-path", "three-threads",
+                "idle-expiry-under-threads")
 
     def probes(self, scn, res):
         p = {}
@@ -539,6 +546,9 @@ class C08(Prop):
             p["default-threading-lock-path"] = 1
         if len(scn["threads"]["programs"]) == 3:
             p["three-threads"] = 1
+        if any(st["m"] == "advance" for pr in scn["threads"]["programs"] for st in pr) and \
+                res.world.stats.get("ev:close"):
+            p["idle-expiry-under-threads"] = 1
         progs = scn["threads"]["programs"]
         if any(st["m"] in ("close", "clear") for pr in progs for st in pr) and len(s.switches) > 0:
             p["clear-while-connection-checked-out"] = 1
